@@ -18,6 +18,9 @@ import SieveModel.Lemmas.Readback
   written with the other, and a name / description in which the prefixes do not occur, the two marker comments give
   back exactly the name and the description (`(pre + s).replace(pre, "") = s.replace(pre, "")` for every `s`);
   `text_without_the_first_prefix_byte_is_safe`: a text without the prefix's first byte (no `#`) contains no occurrence.
+* `written_name_marker_comes_back` / `written_markers_come_back`: the three steps composed — the line the renderer writes
+  (`prefix + text + "\n"`) lexes as one hash comment of that length, the parser's `strip()` leaves it alone (text not ending
+  in white space, as the property's quantifier says), and the loader returns the text.
 The loader and the renderer are tied to the code by the `factory-roundtrip` correspondence (build → render → parse → load
 → read back, real code against the composed Lean models); the rest of the construction and loading logic of `factory.py`
 is decided by the render → parse → reload oracle.
@@ -60,6 +63,52 @@ theorem name_marker_gives_back_the_name (npre dpre name dflt : Bytes) (hn : npre
 theorem text_without_the_first_prefix_byte_is_safe (p : UInt8) (ps s : Bytes) (h : ∀ c ∈ s, c ≠ p) :
     Readback.removeAll (p :: ps) s = s :=
   Readback.removeAll_of_absent_head p ps s h
+
+open Machine in
+/-- **renderer → lexer → parser → loader for the name marker**: the line the renderer writes (`prefix + name + "\n"`, the prefix
+    beginning with `#`, a single-line name not ending in white space) is read as ONE hash comment of exactly that length,
+    `strip()` (what the parser applies before storing it) removes nothing, and the loader gives back exactly the name -/
+theorem written_name_marker_comes_back (p dpre name dflt rest : Bytes)
+    (hnl : ∀ c ∈ p ++ name, c ≠ 10) (hne : name ≠ []) (hlast : B.isWs (name.getLast hne) = false)
+    (h1 : Readback.removeAll (35 :: p) name = name) (h3 : B.startsWith ((35 :: p) ++ name) dpre = false) :
+    Lex.one ((35 :: p) ++ name ++ 10 :: rest) = some (.hash_comment, (35 :: p).length + name.length) ∧
+    stripWs ((35 :: p) ++ name) = (35 :: p) ++ name ∧
+    Readback.nameDescL (35 :: p) dpre [stripWs ((35 :: p) ++ name)] (dflt, []) = (name, []) := by
+  have hs : stripWs ((35 :: p) ++ name) = (35 :: p) ++ name := by
+    apply Comments.strip_keeps _ (by simp)
+    · simp [B.isWs]
+    · have : ((35 :: p) ++ name).getLast (by simp) = name.getLast hne := by
+        rw [List.getLast_append_of_ne_nil]
+      rw [this]; exact hlast
+  refine ⟨?_, hs, ?_⟩
+  · have := hash_comment_is_the_rest_of_the_line (p ++ name) rest hnl
+    simp only [List.cons_append, List.append_assoc, List.length_cons, List.length_append] at this ⊢
+    rw [this]; congr 2; omega
+  · rw [hs]
+    exact name_marker_gives_back_the_name (35 :: p) dpre name dflt (by simp) h1 h3
+
+open Machine in
+/-- the same for both markers: the two lines the renderer writes in front of a filter are two hash comments which, stored
+    stripped, give back name and description -/
+theorem written_markers_come_back (p q name desc dflt : Bytes)
+    (hne : name ≠ []) (hde : desc ≠ [])
+    (hln : B.isWs (name.getLast hne) = false) (hld : B.isWs (desc.getLast hde) = false)
+    (h1 : Readback.removeAll (35 :: p) name = name) (h2 : Readback.removeAll (35 :: q) desc = desc)
+    (h3 : B.startsWith ((35 :: p) ++ name) (35 :: q) = false) (h4 : B.startsWith ((35 :: q) ++ desc) (35 :: p) = false) :
+    Readback.nameDescL (35 :: p) (35 :: q) [stripWs ((35 :: p) ++ name), stripWs ((35 :: q) ++ desc)] (dflt, []) = (name, desc) := by
+  have hs : ∀ (r x : Bytes) (hx : x ≠ []), B.isWs (x.getLast hx) = false → stripWs ((35 :: r) ++ x) = (35 :: r) ++ x := by
+    intro r x hx hl
+    apply Comments.strip_keeps _ (by simp)
+    · simp [B.isWs]
+    · have : ((35 :: r) ++ x).getLast (by simp) = x.getLast hx := by
+        rw [List.getLast_append_of_ne_nil]
+      rw [this]; exact hl
+  rw [hs p name hne hln, hs q desc hde hld]
+  exact markers_give_back_name_and_description (35 :: p) (35 :: q) name desc dflt (by simp) (by simp) h1 h2 h3 h4
+
+/-- non-vacuity: the default markers with a non-ASCII name -/
+example : Lex.one (sb "# Filter: café orders\nif true { keep; }") = some (.hash_comment, 21) ∧
+    Machine.stripWs (sb "# Filter: café orders") = sb "# Filter: café orders" := by decide
 
 /-- non-vacuity with the default prefixes; and a name that contains the prefix is damaged (why the quantifier excludes it) -/
 example : Readback.nameDescL (sb "# Filter: ") (sb "# Description: ") [sb "# Filter: spam rule", sb "# Description: drop it"] (sb "Unnamed rule 1", [])
